@@ -14,6 +14,14 @@ CLAIMED = {
           "Random search over pipelines of the whole operator catalogue (local and thread-safe builds, every scheduler mode on a virtual clock) driven by scripts with post-terminal events and repeated terminals; the delivered history must match Next* (Error|Complete)?. Exploration within the stated depth/length bounds.",
           "Trusts the probe observer and the AST builder. Note (DESIGN §9): terminals consume the observer by value, so safe Rust already enforces the grammar at any single by-value observer; the check confirms it over the explored space.",
           "DESIGN.md §3 C01"),
+  "C04": ("engine-P", "model-based differential PBT over generated interleavings (proptest tapes + shrinking) plus bounded-exhaustive enumeration of all merges of two short scripts",
+          "Each two-input combinator (both forms) is driven by a generated merged timeline of two hot scripts and compared, notification by notification and step by step, with a reference state machine; every operator x all script pairs of <= 4+4 events over a 2-letter alphabet x every interleaving is enumerated completely. Exploration within those bounds.",
+          "Trusts the reference state machines in harness/src/model.rs; the permissive points are listed in DESIGN.md §7.",
+          "DESIGN.md §3 C04"),
+  "C05": ("engine-P", "model-based PBT: generated higher-order timelines against an active-set/FIFO-queue simulation plus model-free invariants over tagged items and a live-subscription tracker",
+          "Generated outer/inner event timelines (cold and hot inners, every concurrency limit) are compared with a queue simulation; tagged items give exactly-once / per-inner order, a defer+finalize tracker gives the live inner-subscription maximum, panics and MutArc self-deadlocks are verdicts. Exploration within the stated bounds.",
+          "Trusts the simulation in props/c05.rs and the tracker operator; self-deadlock detection relies on the verif_hooks lock hook (single thread: a held lock can only be held by the caller).",
+          "DESIGN.md §3 C05"),
   "C18": ("engine-P", "differential / metamorphic PBT: every generated case is built from local types and from thread-safe types and the two delivered histories are compared",
           "Each generated pipeline+script is run twice on one thread (local forms vs every _threads/Threads form, same virtual scheduler choices); traces, is_closed() samples and finalize counts must be identical; a panic or self-deadlock in one build only is a difference. Exploration within the stated bounds.",
           "Trusts the two instantiations of the same builder text (build_body.rs) to differ only in the local/thread-safe forms; self-deadlock of a non-reentrant MutArc is detected through the verif_hooks lock hook.",
